@@ -111,6 +111,14 @@ def worker(batch):
                 if outs[k - 1].get("doc") != outs[k].get("doc"):
                     its.append(("doc", {"in": outs[k - 1].get("doc"), "out": outs[k].get("doc")}))
                 if not its:
+                    # only the LAYOUT of a type string differs (blanks / line breaks inside a type that was word-wrapped)
+                    for pn, pv in (outs[k].get("params") or {}).items():
+                        pb = (outs[k - 1].get("params") or {}).get(pn) or {}
+                        if pb.get("typ") != pv.get("typ") and "".join((pb.get("typ") or "").split()) == "".join((pv.get("typ") or "").split()):
+                            opt = str(pv.get("doc") or "").startswith(("Optional", "(Optional)"))
+                            its.append(("param/typ-layout%s" % ("/description-says-Optional" if opt else ""),
+                                        {"param": pn, "in": pb.get("typ"), "out": pv.get("typ")}))
+                if not its:
                     its = [("other", {"in": outs[k - 1], "out": outs[k]})]
                 for cls, det in its:
                     out["items"].append(("C08/%s/%s" % (tag, coarsen(tag, cls)), dict(det, between_rounds=[k, k + 1]), ir))
@@ -139,9 +147,15 @@ def worker(batch):
 def collect(ctx, n_ir, rounds_max):
     rng = ctx.rng
     work = []
+    LONG_TYPES = ["Union[Tuple[np.ndarray, np.ndarray], Tuple[tf.Tensor, tf.Tensor], Tuple[List[int], List[int]], Dict[str, List[int]]]",
+                  "Optional[Union[Tuple[tf.data.Dataset, tf.data.Dataset], Tuple[np.ndarray, np.ndarray], Dict[str, Tuple[int, int]]]]"]
     for i in range(n_ir):
         for tag, fmt, cfg, dom in CONFIGS:
-            work.append((tag, fmt, cfg, gen_ir(rng, dom), rng.randint(2, rounds_max)))
+            ir_ = gen_ir(rng, dom)
+            if fmt == "docstring" and ir_["params"] and rng.random() < 0.2:
+                # a type longer than the wrap column: its `:type` / `name (type):` line is word-wrapped by the emitter
+                list(ir_["params"].values())[rng.randrange(len(ir_["params"]))]["typ"] = rng.choice(LONG_TYPES)
+            work.append((tag, fmt, cfg, ir_, rng.randint(2, rounds_max)))
     # sweep: a return (and a parameter) description of every length around the wrap column, with a default, so that the emitted
     # "<doc>. Defaults to <x>" line breaks before, inside and after the announcer -- for the formats that re-append and re-strip it
     from collections import OrderedDict
